@@ -107,31 +107,31 @@ func unmarshalFieldValue(msg protoreflect.Message, field protoreflect.FieldDescr
 	switch kind := field.Kind(); kind {
 	case protoreflect.BoolKind:
 		var b bool
-		if err := json.Unmarshal(data, &b); err != nil {
+		if err := unmarshalScalar(data, &b); err != nil {
 			return protoreflect.Value{}, err
 		}
 		return protoreflect.ValueOfBool(b), nil
 	case protoreflect.Int32Kind, protoreflect.Sint32Kind, protoreflect.Sfixed32Kind:
 		var x int32
-		if err := json.Unmarshal(data, &x); err != nil {
+		if err := unmarshalScalar(data, &x); err != nil {
 			return protoreflect.Value{}, err
 		}
 		return protoreflect.ValueOfInt32(x), nil
 	case protoreflect.Int64Kind, protoreflect.Sint64Kind, protoreflect.Sfixed64Kind:
 		var x int64
-		if err := json.Unmarshal(data, &x); err != nil {
+		if err := unmarshalScalar(data, &x); err != nil {
 			return protoreflect.Value{}, err
 		}
 		return protoreflect.ValueOfInt64(x), nil
 	case protoreflect.Uint32Kind, protoreflect.Fixed32Kind:
 		var x uint32
-		if err := json.Unmarshal(data, &x); err != nil {
+		if err := unmarshalScalar(data, &x); err != nil {
 			return protoreflect.Value{}, err
 		}
 		return protoreflect.ValueOfUint32(x), nil
 	case protoreflect.Uint64Kind, protoreflect.Fixed64Kind:
 		var x uint64
-		if err := json.Unmarshal(data, &x); err != nil {
+		if err := unmarshalScalar(data, &x); err != nil {
 			return protoreflect.Value{}, err
 		}
 		return protoreflect.ValueOfUint64(x), nil
@@ -217,13 +217,13 @@ func unmarshalFloat(data []byte, bitSize int) (protoreflect.Value, error) {
 	default:
 		if bitSize == 32 {
 			var x float32
-			if err := json.Unmarshal(data, &x); err != nil {
+			if err := unmarshalScalar(data, &x); err != nil {
 				return protoreflect.Value{}, err
 			}
 			return protoreflect.ValueOfFloat32(x), nil
 		}
 		var x float64
-		if err := json.Unmarshal(data, &x); err != nil {
+		if err := unmarshalScalar(data, &x); err != nil {
 			return protoreflect.Value{}, err
 		}
 		return protoreflect.ValueOfFloat64(x), nil
@@ -232,6 +232,16 @@ func unmarshalFloat(data []byte, bitSize int) (protoreflect.Value, error) {
 		return protoreflect.ValueOfFloat32(float32(value)), nil
 	}
 	return protoreflect.ValueOfFloat64(value), nil
+}
+
+// unmarshalScalar decodes the JSON form of a bool or number into dst. The
+// literal null, which json.Unmarshal accepts for any destination (leaving it
+// untouched), is not a value of these types.
+func unmarshalScalar(data []byte, dst any) error {
+	if string(bytes.TrimSpace(data)) == "null" {
+		return errors.New("null is not a valid value")
+	}
+	return json.Unmarshal(data, dst)
 }
 
 func quote(raw []byte) []byte {
